@@ -39,22 +39,32 @@ impl RequestHandler<PrepareRenameRequest> for PrepareRenameRequestHandler {
                 }
                 let line = source_file.file.source_line(source_line);
 
+                // The column is supplied by the client as well: it is a character column (like the columns
+                // of the analysis below) that may lie beyond the end of the line
+                let line = line.chars().collect::<Vec<_>>();
+                if source_column > line.len() {
+                    return Ok(None);
+                }
+                let is_separator = |c: &char| !c.is_alphanumeric() && *c != '_';
+
                 // Try to find the start of identifier under the cursor
                 let start = line[..source_column]
-                    .rfind(|c: char| !c.is_alphanumeric() && c != '_')
+                    .iter()
+                    .rposition(is_separator)
                     .map(|pos| pos + 1)
                     .unwrap_or_default();
 
                 // Find the end of the identifier under the cursor
                 let end = line[source_column..]
-                    .find(|c: char| !c.is_alphanumeric() && c != '_')
+                    .iter()
+                    .position(is_separator)
                     .unwrap_or_else(|| line[source_column..].len());
 
                 // Adjust the offset to match the full line, not just the substring
                 let end = source_column + end;
 
                 // This is now the identifier under the cursor
-                let id = Identifier::from(&line[start..end]);
+                let id = Identifier::from(line[start..end].iter().collect::<String>().as_str());
 
                 if id.is_super() {
                     // We don't want to allow renaming 'super'
